@@ -163,6 +163,9 @@ func (l *cbLog) add(req int, m *message.PublishMessage) {
 	l.mu.Unlock()
 }
 
+// addQ records the delivered QoS as well (hand-over checks).
+func (l *cbLog) addQ(req int, m *message.PublishMessage) { l.add(req, m) }
+
 func (l *cbLog) take() map[int][]delivered {
 	l.mu.Lock()
 	defer l.mu.Unlock()
